@@ -241,7 +241,10 @@ def run(ctx):
     for f in jv:
         r = [fmt(ir.unwrap(e["expr"].get("e"))) for _, _, e in f.roots() if e["expr"].get("k") == "return"]
         p = f.params[0]["name"]
-        ctx.check(r == ["join(%s.begin(), %s.end(), %s)" % (p, p, f.params[1]["name"])], "R17.3", f, "vector-overload-delegates", "join(vector) returns %s" % r, f)
+        q = f.params[1]["name"]
+        okd = len(r) == 1 and (re.fullmatch(r"join\(%s\.c?begin\(\), %s\.c?end\(\), %s\)" % (p, p, q), r[0]) is not None
+                               or re.fullmatch(r"join\((std::)?c?begin\(%s\), (std::)?c?end\(%s\), %s\)" % (p, p, q), r[0]) is not None)
+        ctx.check(okd, "R17.3", f, "vector-overload-delegates", "join(vector) returns %s instead of the iterator overload over the whole vector with the same infix" % r, f)
 
     # ---- R17.4
     sw = [f for f in prog.find(NS + "starts_with") if f.has_cfg]
